@@ -21,6 +21,10 @@ func openRaceLog() *raceLogT {
 		return nil
 	}
 	os.Remove(f.Name())
+	// keep the original stderr reachable for our own messages
+	if fd, err := syscall.Dup(2); err == nil {
+		os.Stderr = os.NewFile(uintptr(fd), "/dev/stderr")
+	}
 	if err := syscall.Dup2(int(f.Fd()), 2); err != nil {
 		return nil
 	}
@@ -116,17 +120,29 @@ func parseRaces(text string, choices []int) []RaceReport {
 	return out
 }
 
-// topFrame: innermost frame that is neither runtime nor verification runtime.
+// topFrame: innermost frame in fs_db (or its instrumented dependency, or the harness); frames of the
+// standard library reached from there (context, bytes, …) are attributed to their fs_db caller.
 func topFrame(stack []string) string {
-	for _, fr := range stack {
-		if strings.Contains(fr, "/verifrt/") || strings.HasPrefix(fr, "runtime.") || strings.HasPrefix(fr, "sync.") ||
-			strings.HasPrefix(fr, "sync/atomic.") || strings.HasPrefix(fr, "internal/") {
-			continue
+	pick := func(allowStd bool) string {
+		for _, fr := range stack {
+			if strings.Contains(fr, "/verifrt/") || strings.HasPrefix(fr, "runtime.") {
+				continue
+			}
+			if !allowStd && !strings.Contains(fr, "glebziz/") {
+				continue
+			}
+			fr = strings.TrimPrefix(fr, "github.com/glebziz/fs_db/")
+			fr = closureRe.ReplaceAllString(fr, "")
+			fr = shapeRe.ReplaceAllString(fr, "[…]")
+			return fr
 		}
-		fr = strings.TrimPrefix(fr, "github.com/glebziz/fs_db/")
-		// closures: pkg.Func.func1 -> pkg.Func
-		fr = regexp.MustCompile(`(\.func\d+)+(\.\d+)*$`).ReplaceAllString(fr, "")
-		return fr
+		return ""
 	}
-	return ""
+	if f := pick(false); f != "" {
+		return f
+	}
+	return pick(true)
 }
+
+var closureRe = regexp.MustCompile(`(\.func\d+)+(\.\d+)*$|-range\d+$`)
+var shapeRe = regexp.MustCompile(`\[go\.shape\.[^\]]*\]`)
